@@ -52,3 +52,6 @@ add("F31","C02","fixed","tree-differs-after:h.close","closing a written handle w
 add("F32","C01","fixed","rebuild-differs","closing a written handle whose entry had been renamed away appended a record no index row matched; the next write was then indexed at that stale record's position (a new empty file showed the other file's bytes until the index was rebuilt)",
     ops=[{"k":"create","p":"/t","h":1},{"k":"h.write","h":1,"d":D(3,1)},{"k":"rename","p":"/t","q":"/u"},{"k":"h.close","h":1},{"k":"writefile","p":"/c7","d":D(0,2)}],
     commit="closing a written file archives it under its current state")
+addfile("KF7","C05","open","rejected-call-appends",
+    "renaming a directory that is (an ancestor of) the target of a symlink: the symlink row shares its name with the target's row, the second move record matches no row any more, the index falls one record behind the tape and every later write appends its record and then fails with 'tar header missing' (the link path itself is not rewritten either)",
+    relax="symlink-rename", also=["C01"])
